@@ -207,7 +207,13 @@ def make_reader_body(M):
             jf.len = lambda x: SymSize(x.n) if isinstance(x, SymLine) else builtins.len(x)
             jf.json = JSONShim
         jf.os = OS()
-        jf.open = lambda p, mode="rb": FakeFile()
+        jf.open = fake_open
+
+    def fake_open(p, mode="rb", *args, **kwargs):
+        if "b" not in mode or args or kwargs:
+            # the adversarial-growth model is a model of BINARY reads (byte offsets): anything else cannot be judged by it
+            raise core.HarnessError(f"read_logs opens the journal with open({mode!r}, {args}, {kwargs}): the reader model only supports binary mode")
+        return FakeFile()
 
     def body():
         install()
@@ -247,6 +253,50 @@ def setup_reader(concrete):
 
 
 # ---------------------------------------------------------------------------------------------- (b) lock protocol BMC
+def nonascii_offsets_concrete():
+    """CONCRETE companion of reader-growth (the symbolic model has abstract ASCII records): the real backend on a real temporary file with
+    records that contain multi-byte characters; a long-lived reader's incremental reads (cached byte offsets) must agree with a fresh
+    reader for every starting record, for both lock classes and for records appended one by one or several per call"""
+    import os
+    import shutil
+    import tempfile
+    import warnings
+    warnings.simplefilter("ignore")
+    t0 = time.time()
+    d = tempfile.mkdtemp(prefix="c07na")
+    bad = []
+    n = 0
+    recs = [{"k": "plain"}, {"k": "caf\u00e9 \u65e5\u672c\u8a9e"}, {"k": "x", "emoji": "\U0001F600", "nested": {"\u00fc": [1, "\u00df"]}}, {"k": "tail"}, {"k": "\u00e9"}]
+    try:
+        for lock_name in ("JournalFileSymlinkLock", "JournalFileOpenLock"):
+            for batch in (1, 2):
+                path = os.path.join(d, f"{lock_name}-{batch}.log")
+                mk = lambda: jf.JournalFileBackend(path, lock_obj=getattr(jf, lock_name)(path))     # noqa: E731
+                old = mk()
+                written = []
+                for i in range(0, len(recs), batch):
+                    mk().append_logs(recs[i:i + batch])
+                    written += recs[i:i + batch]
+                    for k in range(len(written) + 1):
+                        n += 1
+                        try:
+                            got_old = old.read_logs(k)
+                            got_new = mk().read_logs(k)
+                        except Exception as e:  # noqa
+                            bad.append(dict(lock=lock_name, batch=batch, read_from=k, error=f"{type(e).__name__}: {str(e)[:80]}"))
+                            continue
+                        if got_old != written[k:] or got_new != written[k:]:
+                            bad.append(dict(lock=lock_name, batch=batch, read_from=k, long_lived=got_old, fresh=got_new, expected=written[k:]))
+    finally:
+        shutil.rmtree(d, ignore_errors=True)
+    res = {"result": "ok" if not bad else "mismatch", "queries": 0, "programs": n, "wall_s": time.time() - t0,
+           "samples": [dict(reads=n, records=len(recs), note="concrete, real file")]}
+    if bad:
+        res["cex"] = [{"key": "reader:non-ascii-records:incremental-read-differs", "pre_replayed": True, "values": {}, "choices": [], "notes": {k: str(v)[:200] for k, v in bad[0].items()},
+                       "kind": "concrete", "message": f"incremental read_logs with multi-byte records: {str(bad[0])[:300]}"}]
+    return res
+
+
 GRACE_TICKS = 6        # envsum.lockbmc.GRACE // TICK
 
 
@@ -323,6 +373,8 @@ def obligations(tier):
                    shard_depth=4, budget_s=900, classify=classify, require_reach=["read", "nonempty"],
                    describe="read_logs under adversarial append-only growth, arbitrary earlier offset cache"),
     ]
+    obs.append(Obligation("reader-nonascii-concrete", None, None, CODE, custom=nonascii_offsets_concrete,
+                          describe="CONCRETE companion: records with multi-byte characters on a real file, long-lived vs fresh reader, every starting record"))
     if not q:
         obs.append(Obligation("reader-growth-4", make_reader_body(4), setup_reader, CODE, bounds=dict(records="4 complete + 1 in flight", reads=2),
                               shard_depth=5, budget_s=3000, classify=classify, require_reach=["read", "nonempty"], describe="same with 4 records"))
